@@ -32,6 +32,30 @@ class Ctx:
         self.tag2id = {}
         self.seed = seed
         self.log = {}
+        self.events = []      # ("ran", k) | ("clock", t): serial-mode trace and the stop check's clock readings
+
+
+class FakeTime:
+    """virtual clock for cotengra.hyperoptimizers.hyper: one unit per trial run.  Readings made by the search loop's
+    stop check are logged (relative to the first reading, which is the loop's t0)."""
+    def __init__(self, ctx, sink):
+        self.ctx, self.sink, self.t0 = ctx, sink, None
+
+    def time(self):
+        import sys
+        now = float(self.ctx.count)
+        if self.t0 is None:
+            self.t0 = now
+        if sys._getframe(1).f_code.co_name == "should_stop":
+            self.sink.append(("clock", int(now - self.t0)))
+        return now
+
+    def sleep(self, dt):
+        pass
+
+    def __getattr__(self, name):
+        import time as _t
+        return getattr(_t, name)
 
 
 CTX = None
@@ -46,6 +70,7 @@ def verif_trial(inputs, output, size_dict, tag=0):
         ctx.count += 1
         k = ctx.count
         ctx.tag2id[tag] = k
+        ctx.events.append(("ran", k))
     if k in ctx.failing:
         raise RuntimeError(f"scripted failure of trial {k}")
     rng = random.Random(ctx.seed * 1000 + k)
@@ -135,6 +160,15 @@ def batch_variants(rng, sched, M, P):
     return sets
 
 
+def draw_stop(rng, M):
+    k = rng.choice(["equil", "equil", "time", "rate"])
+    if k == "equil":
+        return ["equil", rng.randrange(0, 4)]
+    if k == "time":
+        return ["time", rng.randrange(0, M + 1)]
+    return ["rate", rng.choice([1e9, 1e3, 50.0, 1.0])]
+
+
 POSTS = {
     "none": {},
     "slicing": {"slicing_opts": {"target_slices": 2}},
@@ -152,15 +186,20 @@ POSTS = {
 OBJECTIVES = ["flops", "size", "write", "combo", "combo-256", "limit", "limit-8"]
 
 
-def one_run(run, ct, net, mode, sets, failing, post, objective, seed, M, real_pool=None, optlib="random", methods=("verif",)):
-    """returns (hyper case, snapshot case or None, desc)"""
+def one_run(run, ct, net, mode, sets, failing, post, objective, seed, M, real_pool=None, optlib="random", methods=("verif",),
+            stop=None):
+    """returns (hyper case, snapshot case or None, desc).  stop: None | ["equil", n] | ["time", T] | ["rate", r]"""
     global CTX
     CTX = Ctx(seed, failing)
     desc = {"net": net.to_json(), "mode": mode, "schedule": [sorted(s) for s in sets] if sets else None,
             "failing": sorted(failing), "post": post, "objective": objective, "seed": seed, "M": M,
-            "optlib": optlib, "methods": list(methods)}
+            "optlib": optlib, "methods": list(methods), "stop": stop}
     tags = {"mode:" + mode, "post:" + post, "objective:" + objective.split("-")[0],
-            "objective-explicit-factor" if "-" in objective else "objective-default"}
+            "objective-explicit-factor" if "-" in objective else "objective-default",
+            "stop:" + (stop[0] if stop else "none")}
+    max_time = None
+    if stop:
+        max_time = {"equil": f"equil:{stop[1]}", "time": stop[1], "rate": f"rate:{stop[1]}"}[stop[0]]
     if mode == "fake":
         pool = FakePool(sets)
         parallel = pool
@@ -171,17 +210,24 @@ def one_run(run, ct, net, mode, sets, failing, post, objective, seed, M, real_po
     # the tag space must stay small for samplers that materialise integer ranges (nevergrad)
     from cotengra.hyperoptimizers import hyper as _hy
     _hy.register_hyper_function("verif", verif_trial, {"tag": {"type": "INT", "min": 0, "max": 10**9 if optlib == "random" else 4000}})
+    real_time = _hy.time
+    if stop and mode in ("fake", "serial"):
+        _hy.time = FakeTime(CTX, pool.events if mode == "fake" else CTX.events)
+    opt = None
     try:
         with core.watchdog(180):
             opt = ct.HyperOptimizer(methods=list(methods), max_repeats=M, parallel=parallel, optlib=optlib,
-                                    minimize=objective, on_trial_error="ignore", **POSTS[post])
-            tree = opt.search(net.c_inputs(), net.c_output(), net.c_sizes())
+                                    minimize=objective, on_trial_error="ignore", max_time=max_time, **POSTS[post])
+            try:
+                tree = opt.search(net.c_inputs(), net.c_output(), net.c_sizes())
+            finally:
+                _hy.time = real_time
     except core.Hang as e:
         run.violation(f"HyperOptimizer.search did not return ({e}) mode={mode} post={post} objective={objective}", desc,
                       tags=tags | {"hang"})
         return None
     except Exception as e:
-        allfail = len(failing) >= M
+        allfail = len(failing) >= M or (opt is not None and stop and all(x == float("inf") for x in opt.scores))
         if allfail:
             return None     # every trial failed: nothing to return (outside the statement)
         run.violation(f"HyperOptimizer.search raised {core.exc_text(e)} mode={mode} post={post} objective={objective} "
@@ -201,13 +247,27 @@ def one_run(run, ct, net, mode, sets, failing, post, objective, seed, M, real_po
         for ev in pool.events:
             if ev[0] == "submit":
                 events.append(["submit", ev[1]])
+            elif ev[0] == "clock":
+                events.append(["clock", ev[1]])
             else:
                 events.append(["report", next(it)])
         P = 5
+    elif mode == "serial" and "verif" in methods:
+        # one trial at a time: run k = submit k, report k, then (with a time rule) the stop check's clock reading
+        events = []
+        for ev in CTX.events:
+            if ev[0] == "ran":
+                if ev[1] <= len(opt.scores):
+                    events += [["submit", ev[1]], ["report", ev[1]]]
+                else:
+                    events += [["submit", ev[1]]]     # ran but never recorded
+            else:
+                events.append(["clock", ev[1]])
+        P = 1
     else:
         # serial / real pools: submissions are not observable from outside; the trace is the report order,
         # with every submission placed as early as the window allows (P = M: no window constraint checked)
-        events = [["submit", i] for i in range(1, len(ids) + 1)] + [["report", i] for i in ids]
+        events = [["submit", i] for i in range(1, max(len(ids), M if stop else 0) + 1)] + [["report", i] for i in ids]
         P = max(M, 1)
     if any(i is None for i in ids):
         # real methods in a real pool: trial identity is not observable; the trace degenerates to the report count
@@ -227,7 +287,13 @@ def one_run(run, ct, net, mode, sets, failing, post, objective, seed, M, real_po
             best_id = opt.scores.index(min(fin_)) + 1 if fin_ else 0
             if opt.best["score"] != min(fin_):
                 best_id = -1
-    hcase = {"M": M, "P": P, "events": events, "score": score, "Inf": INF, "best": best_id, "nscores": len(opt.scores)}
+    rule, amount = "none", 0
+    if stop:
+        rule, amount = {"equil": ("equil", stop[1]), "time": ("time", stop[1]), "rate": ("any", 0)}[stop[0]]
+        if mode not in ("fake", "serial") and rule == "time":
+            rule = "any"      # real clock: the trace does not determine the stopping point
+    hcase = {"M": M, "P": P, "events": events, "score": score, "Inf": INF, "best": best_id, "nscores": len(opt.scores),
+             "rule": rule, "amount": int(amount)}
     # ---- figures of the winner vs the returned tree -------------------------------
     snap = None
     b = opt.best
@@ -284,6 +350,18 @@ def run(run):
     res = mc.run_mc("MC_HyperOpt_quick" if quick else "MC_HyperOpt", workers=8, module="MC_HyperOpt")
     run.tlc(res)
     run.extra["mc_instances"] = {("MC_HyperOpt_quick" if quick else "MC_HyperOpt"): {"states": res.distinct, "exhaustive": True}}
+    # stopping rules: "equil" and "time"; and the wrong order (stop check before the comparison) must be refuted
+    for nm in ["MC_HyperOpt_equil"] + ([] if quick else ["MC_HyperOpt_time"]):
+        res = mc.run_mc(nm, workers=8, module="MC_HyperOpt")
+        run.tlc(res)
+        run.extra["mc_instances"][nm] = {"states": res.distinct, "exhaustive": True}
+    try:
+        mc.run_mc("MC_HyperOpt_checkfirst", workers=2, module="MC_HyperOpt", coverage=False)
+        raise tla.MachineryError("negative instance MC_HyperOpt_checkfirst was not refuted (vacuity)")
+    except tla.MachineryError as e:
+        if "BestAtEnd" not in str(e):
+            raise
+        run.extra["mc_instances"]["MC_HyperOpt_checkfirst (negative)"] = {"violates": "BestAtEnd", "as_expected": True}
     scheds = schedules_from_tlc(run, quick, rng)
     pool_nets = [n for n in nets.net_pool(rng, 40, nmin=4, nmax=6, weird=False) if nets.connected(n) and n.K >= 3][:12]
     M = 7
@@ -297,9 +375,10 @@ def run(run):
         objective = rng.choice(OBJECTIVES)
         if rng.random() < 0.3:
             sets = batch_variants(rng, sets, M, 5)
-        r = one_run(run, ct, net, "fake", sets, failing, post, objective, rng.randrange(10**6), M)
+        stop = draw_stop(rng, M) if rng.random() < 0.35 else None
+        r = one_run(run, ct, net, "fake", sets, failing, post, objective, rng.randrange(10**6), M, stop=stop)
         run.count()
-        run.nontrivial(("fake", str(sets), str(sorted(failing)), post, objective, net.eq()))
+        run.nontrivial(("fake", str(sets), str(sorted(failing)), post, objective, net.eq(), str(stop)))
         if r:
             results.append(r)
     # serial: every objective x post-processing set
@@ -312,6 +391,18 @@ def run(run):
         r = one_run(run, ct, net, "serial", None, failing, post, objective, rng.randrange(10**6), 5)
         run.count()
         run.nontrivial(("serial", post, objective, net.eq(), str(sorted(failing))))
+        if r:
+            results.append(r)
+    # serial with a stopping rule (HyperOpt!Check): the run ends exactly where the rule fires
+    for _ in range(30 if quick else 300):
+        net = rng.choice(pool_nets)
+        M2 = rng.choice([6, 8, 10])
+        failing = set(rng.sample(range(1, M2 + 1), rng.choice([0, 0, 1, 2])))
+        stop = draw_stop(rng, M2)
+        post = rng.choice(list(POSTS)) if rng.random() < 0.3 else "none"
+        r = one_run(run, ct, net, "serial", None, failing, post, rng.choice(OBJECTIVES), rng.randrange(10**6), M2, stop=stop)
+        run.count()
+        run.nontrivial(("serial-stop", str(stop), post, net.eq(), str(sorted(failing))))
         if r:
             results.append(r)
     # real optimisation libraries and real methods, serial (report-dependent samplers)
@@ -329,8 +420,9 @@ def run(run):
         for _ in range(4 if quick else 30):
             net = rng.choice(pool_nets)
             failing = set(rng.sample(range(1, 9), rng.choice([0, 1])))
+            stop = rng.choice([None, None, ["equil", 1], ["time", 0.0005], ["rate", 1e6]])
             r = one_run(run, ct, net, "threads", None, failing, rng.choice(["none", "reconf"]), rng.choice(OBJECTIVES[:4]),
-                        rng.randrange(10**6), 8, real_pool=tp)
+                        rng.randrange(10**6), 8, real_pool=tp, stop=stop)
             run.count()
             run.nontrivial(("threads", net.eq(), str(sorted(failing))))
             if r:
@@ -396,7 +488,7 @@ def replay(run, desc):
     sets = [set(s) for s in desc["schedule"]] if desc.get("schedule") else None
     mode = desc["mode"] if desc["mode"] in ("fake", "serial") else "serial"
     r = one_run(run, ct, net, mode, sets, set(desc["failing"]), desc["post"], desc["objective"], desc["seed"], desc["M"],
-                optlib=desc.get("optlib", "random"), methods=tuple(desc.get("methods", ["verif"])))
+                optlib=desc.get("optlib", "random"), methods=tuple(desc.get("methods", ["verif"])), stop=desc.get("stop"))
     run.count()
     if r:
         judge(run, [r])
